@@ -3,7 +3,7 @@
    parsed library under respelling is a theorem only on the scope of C01's parser proof; what is proved
    here are the mechanisms the property rests on, for every input. *)
 From Coq Require Import List NArith Bool.
-From Verif Require Import Base.Text Gen.GenTokens Model.Lexer Proofs.LexerTile Proofs.RespellProofs.
+From Verif Require Import Base.Res Base.Text Gen.GenTokens Model.Lexer Model.ExprParser Proofs.LexerTile Proofs.RespellProofs Proofs.ExprParserProofs Proofs.ExprInstance.
 Import ListNotations.
 
 (* every token of token.rs whose spelling contains a letter is matched case-insensitively (table regenerated each run) *)
@@ -23,3 +23,19 @@ Proof. exact endif_semicolon_optional. Qed.
 Theorem C08_insertion_only_adds : forall ts b, Forall (fun tk => t_text tk <> []) ts ->
   filter (fun tk => negb (synthetic tk)) (insert_terminators_from b ts) = ts.
 Proof. intros ts b H. exact (insert_terminators_erase ts b H). Qed.
+
+Close Scope N_scope.
+Open Scope nat_scope.
+
+(* on the scope of the parser theorem: two well-formed spellings with the same meaning -- differing in the case
+   of keyword letters, in trivia at any slot, in redundant parentheses -- parse to the same tree *)
+Theorem C08_expression_respelling : forall (s1 s2 : sp token binop unop leaf) q rest1 rest2,
+  wf token binop unop leaf tok_triv tok_bop tok_uop tok_atom tok_lp tok_rp tok_noafter q s1 ->
+  wf token binop unop leaf tok_triv tok_bop tok_uop tok_atom tok_lp tok_rp tok_noafter q s2 ->
+  follow_lt token binop tok_triv tok_bop q rest1 -> follow_lt token binop tok_triv tok_bop q rest2 ->
+  follow_ok token binop unop leaf tok_triv tok_noafter s1 rest1 -> follow_ok token binop unop leaf tok_triv tok_noafter s2 rest2 ->
+  erase token binop unop leaf s1 = erase token binop unop leaf s2 ->
+  exists f0, forall f, f0 <= f ->
+    exists r1 r2, parse_expr f q (flat token binop unop leaf s1 ++ rest1) = Ok (erase token binop unop leaf s1, r1)
+               /\ parse_expr f q (flat token binop unop leaf s2 ++ rest2) = Ok (erase token binop unop leaf s1, r2).
+Proof. intros s1 s2 q rest1 rest2. unfold parse_expr. apply respelling_invariant. Qed.
